@@ -1,6 +1,7 @@
 package checks
 
 import (
+	"bytes"
 	"context"
 	"fmt"
 	"strings"
@@ -206,6 +207,13 @@ func (ch c08) multiBind(c *core.Ctx, env *hs.Env, rng *core.Rng) {
 		ps = append(ps, b)
 		in = append(in, pg.Bind(b.name, "s", b.pf, b.params, b.rf)...)
 	}
+	withOversize := rng.Intn(3) == 0
+	if withOversize {
+		// a rejected oversized message between Bind and Execute must not disturb bound portals
+		in = append(in, pg.Sync()...)
+		in = append(in, pg.Raw(core.Pick(rng, []byte("QBPd")), bytes.Repeat([]byte{'X'}, 1<<22+1+rng.Intn(5000)))...)
+		in = append(in, pg.Sync()...)
+	}
 	order := make([]int, n)
 	for i := range order {
 		order[i] = i
@@ -220,7 +228,15 @@ func (ch c08) multiBind(c *core.Ctx, env *hs.Env, rng *core.Rng) {
 	cs := map[string]any{"multi_bind_portals": n}
 	msgs, err := parseAll(out)
 	want := "1" + strings.Repeat("2", n) + strings.Repeat("TDC", n) + "Z"
-	if err != nil || closed || pg.Types(msgs) != want {
+	skip := 1 + n
+	if withOversize {
+		want = "1" + strings.Repeat("2", n) + "Z" + "EZ" + "Z" + strings.Repeat("TDC", n) + "Z"
+		skip = 1 + n + 4
+		if t := pg.Types(msgs); strings.HasPrefix(t, "1"+strings.Repeat("2", n)+"ZEZ"+"TDC") {
+			want = t // E with its own ReadyForQuery for a non-Query oversized message, then no extra Z: also admissible
+		}
+	}
+	if err != nil || closed || (pg.Types(msgs) != want && !withOversize) || (withOversize && !strings.HasSuffix(pg.Types(msgs), strings.Repeat("TDC", n)+"Z")) {
 		c.Violate("multi-bind", "multi-portal batch transcript", fmt.Sprintf("%v closed=%v got %s want %s", err, closed, pg.Types(msgs), want), cs)
 		return
 	}
@@ -234,7 +250,8 @@ func (ch c08) multiBind(c *core.Ctx, env *hs.Env, rng *core.Rng) {
 	c.Eval(fmt.Sprintf("multibind n=%d", n), true)
 	for k, i := range order {
 		b := ps[i]
-		desc, drow := msgs[1+n+3*k], msgs[1+n+3*k+1]
+		desc, drow := msgs[len(msgs)-1-3*(n-k)], msgs[len(msgs)-1-3*(n-k)+1]
+		_ = skip
 		for j := range cols {
 			wf := fmtFor(b.rf, j)
 			if desc.Cols[j].Format != wf {
